@@ -161,4 +161,67 @@ theorem run_node (p : PCfg) (f : Fmt) : ∀ (d : Node) (top : Frame) (rest : Lis
         simp [closeFrame, normAttrs, ctxOf, List.append_assoc]
 end
 
+/-! ### the reader-level stream is the direct one on representable trees -/
+
+/-- what C09 proves of a substitution function and the readers: reading the written form gives the string back -/
+def ReaderLaws (rd : Reader) (f : Fmt) : Prop :=
+  ∃ g, f.subst = some g ∧ (∀ s, rd.text (g s) = s) ∧ (∀ v, rd.attr (quoteAttr (g v)) = some v)
+
+theorem evAttrsRd_eq (rd : Reader) (f : Fmt) (h : ReaderLaws rd f) (attrs : List (PStr × AVal)) :
+    evAttrsRd rd f attrs = evAttrs f attrs := by
+  obtain ⟨g, hg, _, ha⟩ := h
+  unfold evAttrsRd evAttrs
+  apply List.map_congr_left
+  intro kv _
+  cases hv : kv.2 <;> simp [substitute, hg, ha]
+
+/-- the writer's and the reader's notion of raw content agree for the parent at hand -/
+def rawAgree (f : Fmt) (pname : Option PStr) (raw : Bool) : Prop :=
+  (match pname with | some n => f.cdataTags.contains n | none => false) = raw
+
+mutual
+theorem emitRd_eq (p : PCfg) (rd : Reader) (f : Fmt) (h : ReaderLaws rd f) :
+    ∀ (n : Node) (pname : Option PStr) (raw : Bool), rawAgree f pname raw → representable p f raw n = true →
+      emitRd p rd f pname raw n = emitR f n
+  | .str c s, pname, raw, hw, hr => by
+    obtain ⟨g, hg, ht, _⟩ := h
+    simp only [emitRd, emitR, emitStrRd, emitStr]
+    cases hk : strKind c s with
+    | special c' s' nl => rfl
+    | text t =>
+      have hts : t = s := by
+        cases c <;> simp [strKind] at hk <;> exact hk.symm
+      subst hts
+      have hcp : c ≠ .preformatted := by
+        intro hc; subst hc; simp [representable, okStr] at hr
+      have hd : readData rd f pname raw c t = t := by
+        simp only [readData, hcp, if_false]
+        cases raw with
+        | true =>
+          cases pname with
+          | none => simp [rawAgree] at hw
+          | some n =>
+            have : f.cdataTags.contains n = true := hw
+            simp only [substitute, hg, this, if_true]
+        | false =>
+          cases pname with
+          | none => simp [substitute, hg, ht]
+          | some n =>
+            have : f.cdataTags.contains n = false := hw
+            simp only [substitute, hg, this, Bool.false_eq_true, if_false, ht]
+      simp [hd]
+  | .tag i kids, pname, raw, _, hr => by
+    simp only [representable, Bool.and_eq_true, beq_iff_eq] at hr
+    simp only [emitRd, emitR, evAttrsRd_eq rd f h]
+    have hk := emitRdL_eq p rd f h kids (some i.name) (p.cdataElems.contains (fullName i)) hr.1.1.1.2 hr.2
+    rw [hk]
+theorem emitRdL_eq (p : PCfg) (rd : Reader) (f : Fmt) (h : ReaderLaws rd f) :
+    ∀ (ns : List Node) (pname : Option PStr) (raw : Bool), rawAgree f pname raw → representableL p f raw ns = true →
+      emitRdL p rd f pname raw ns = emitRL f ns
+  | [], _, _, _, _ => by simp [emitRdL, emitRL]
+  | n :: ns, pname, raw, hw, hr => by
+    simp only [representableL, Bool.and_eq_true] at hr
+    simp only [emitRdL, emitRL, emitRd_eq p rd f h n pname raw hw hr.1, emitRdL_eq p rd f h ns pname raw hw hr.2]
+end
+
 end BS.Render
